@@ -175,7 +175,7 @@ Proof.
   { intros infix Hi. unfold m_key. rewrite Hc. cbn [negb]. rewrite (app_assoc (c_prefix c)).
     rewrite <- (app_nil_r (tagged tag ch)). apply tagged_form, lacks_prefix_infix; assumption. }
   unfold map_keys, map_infixes in Hin. cbn [map app In] in Hin.
-  destruct Hin as [<-|[<-|[<-|[<-|[<-|[<-|[<-|[<-|[<-|[]]]]]]]]]]; try (apply F; reflexivity).
+  destruct Hin as [<-|[<-|[<-|[<-|[<-|[<-|[<-|[<-|[<-|[<-|[]]]]]]]]]]]; try (apply F; reflexivity).
   - unfold m_message, sharded, mprefix. rewrite Hc, Hn. cbn [andb].
     rewrite <- (app_nil_r (tagged tag ch)). apply tagged_form, lacks_prefix_infix; [assumption|reflexivity].
   - unfold m_result. rewrite Hc. cbn [negb]. rewrite (app_assoc (c_prefix c)).
